@@ -65,9 +65,9 @@ Rep(b) == CASE b \in Digit19 -> 49
             [] b \in {9, 32} -> 32
             [] b = 13 -> 13
             [] b \in Ctl -> 1
-            [] b \in {36, 42, 60, 62, 63, 64} -> 36                \* undocumented bytes the real reader takes as token bytes
+            [] b \in {36, 60, 62, 63, 64} -> 36                    \* undocumented bytes the real reader takes as token bytes
             [] b \in {33, 35, 37, 38, 59, 61, 96, 124} -> 33       \* other undocumented punctuation
-            [] b \in {10, 34, 39, 92, 47, 43, 45, 46, 48, 40, 41, 44, 58, 91, 93, 123, 125, 117, 101, 69} -> b
+            [] b \in {10, 34, 39, 92, 47, 42, 43, 45, 46, 48, 40, 41, 44, 58, 91, 93, 123, 125, 117, 101, 69} -> b
             [] b \in {98, 102, 110, 114, 116} -> 110               \* escape letters
             [] b \in {97, 99, 100, 65, 66, 67, 68, 70} -> 97       \* hex letters
             [] OTHER -> 120                                        \* any other token byte ("x")
